@@ -312,7 +312,7 @@ func (t trackSpec) clock() int {
 	switch t.Kind {
 	case "aac44":
 		return 44100
-	case "aac48", "opus":
+	case "aac48", "opus", "aacps":
 		return 48000
 	case "aac16":
 		return 16000
@@ -443,6 +443,8 @@ func newTrackCfg(c muxCfg, t trackSpec) *Track {
 		tr.Codec = &codecs.VP9{Width: 1920, Height: 804, Profile: 0, BitDepth: 8, ChromaSubsampling: 1, ColorRange: false}
 	case "aac44", "aac48", "aac16":
 		tr.Codec = &codecs.MPEG4Audio{Config: mpeg4audio.Config{Type: 2, SampleRate: t.clock(), ChannelCount: 2}}
+	case "aacps": // audio object type 29 (parametric stereo) given as the main type: another RFC 6381 string, mp4a.40.29
+		tr.Codec = &codecs.MPEG4Audio{Config: mpeg4audio.Config{Type: 29, SampleRate: t.clock(), ChannelCount: 2}}
 	case "aacsbr":
 		tr.Codec = &codecs.MPEG4Audio{Config: mpeg4audio.Config{Type: 2, SampleRate: t.clock(), ChannelCount: 2,
 			ExtensionType: mpeg4audio.ObjectTypeSBR, ExtensionSampleRate: 2 * t.clock()}}
